@@ -13,6 +13,25 @@ import (
 // The result is a consistent TLS offer when `consistent` is set (usable for C10): suites,
 // groups, shares, signature algorithms the library implements, supported_versions matching.
 func GenSpec(ch *simrt.Chooser, consistent bool) (*tls.ClientHelloSpec, string) {
+	f, d := GenSpecFactory(ch, consistent)
+	return f(), d
+}
+
+// GenSpecFactory draws a spec once and returns a factory producing fresh, identical spec
+// values: extension objects of a ClientHelloSpec are shared by pointer and ApplyPreset
+// stores per-connection key material in them, so a spec value must not be reused across
+// connections (documented on ApplyPreset).
+func GenSpecFactory(ch *simrt.Chooser, consistent bool) (func() *tls.ClientHelloSpec, string) {
+	start := len(ch.Tape)
+	_, desc := genSpec(ch, consistent)
+	seg := append([]uint32(nil), ch.Tape[start:]...)
+	return func() *tls.ClientHelloSpec {
+		s, _ := genSpec(simrt.NewReplay(seg), consistent)
+		return s
+	}, desc
+}
+
+func genSpec(ch *simrt.Chooser, consistent bool) (*tls.ClientHelloSpec, string) {
 	var desc []string
 	tls13 := ch.Bool(65, "spec-tls13")
 	suites12 := []uint16{
@@ -191,4 +210,11 @@ func dedup16(xs []uint16) []uint16 {
 		}
 	}
 	return out
+}
+
+func freshSpec(f func() *tls.ClientHelloSpec) *tls.ClientHelloSpec {
+	if f == nil {
+		return nil
+	}
+	return f()
 }
